@@ -130,7 +130,7 @@ LoggedOK(mm, d) ==
 ConserveOK(mm2) ==
   (mm2.qual /\ ~mm2.fL /\ mm2.pend = {}) => ConservedEps(mm2.AL, mm2.L, RMul(Eps, RN(mm2.k + 2)))
 \* all-affiliate balance equals the sum of the affiliates' latest balances (C04)
-SumOK(mm2) == RClose(mm2.L.all, SumSet(DOMAIN mm2.L.sh, LAMBDA a : mm2.L.sh[a]), Eps)
+SumOK(mm2) == RClose(mm2.L.all, RSumOver(DOMAIN mm2.L.sh, LAMBDA a : mm2.L.sh[a]), Eps)
 
 Finish(mm2) ==
   Chk(SumOK(mm2), "inv", "all-affiliate balance differs from the sum of affiliate balances",
